@@ -240,6 +240,16 @@ func replayOne(rf *vstat.ReplayFile) string {
 		}
 		return ""
 	}
+	if rf.Property == "C09" && rf.Part == "alias" {
+		var sc aliasScenario
+		if err := json.Unmarshal(rf.Scenario, &sc); err != nil {
+			return "bad scenario: " + err.Error()
+		}
+		if _, err := runAlias(&sc); err != nil {
+			return err.Error()
+		}
+		return ""
+	}
 	switch rf.Kind {
 	case "seq", "rapid":
 		if rf.Property == "C09" {
